@@ -53,7 +53,7 @@ PROOFS = [
     Proof('headers/parse', 'http.c', 'h_parse', kind='L', min_obligations=5, backend='cadical', timeout=600),
     Proof('body/read', 'http.c', 'h_body_read', kind='L', min_obligations=5, backend='cadical'),
 ]
-NATIVES = [Native('frag', 'frag.cpp', extra_src=['inc_body.cpp', 'inc_message.cpp', 'inc_headers.cpp'], args_quick=[150], args_thorough=[5000], timeout=1800, link_photon=True, ldflags=['-lssl', '-lcrypto', '-lcurl', '-laio', '-lz']),
+NATIVES = [Native('frag', 'frag.cpp', extra_src=['inc_body.cpp', 'inc_message.cpp', 'inc_headers.cpp', 'inc_estring.cpp'], args_quick=[150], args_thorough=[5000], timeout=1800, link_photon=True, ldflags=['-lssl', '-lcrypto', '-lcurl', '-laio', '-lz']),
            Native('native', 'native.cpp', args_quick=[20000], args_thorough=[2000000], timeout=1800, link_photon=True)]
 REPLAY = 'native'
 TRUSTED = ['cbmc 6.11.0', 'lowering rules of specs/C13/spec.py']
